@@ -247,7 +247,7 @@ func c03spaces(thorough bool) []c03space {
 	maxShort := 5
 	if thorough {
 		small = c03sharp
-		maxShort = 10
+		maxShort = 7
 	}
 	cum2 := make([]int, len(seeds)+1)
 	for i, t := range seeds {
